@@ -202,11 +202,17 @@ pub enum Spelling {
     /// `p/./last` (kind 1) or the detour `p/../p/last` (kind 2; `p` is a plain directory for every
     /// base the generators draw). Falls back to the plain spelling when the text has no such place.
     Odd { absolute: bool, kind: u8 },
+    /// A base *above* the world: the directory `levels` components above the world root (255 = the
+    /// root of the file system, `/`, or `//` with `slash`), spelled absolutely (with a trailing
+    /// separator if `slash`). Only for a walker whose world base is the world root and whose glob
+    /// expression starts with the placeholder `$UP<levels>`, which stands for those components of the
+    /// world root's path, escaped: a literal prefix, so the walk still never leaves the world.
+    Above { levels: u8, slash: bool },
 }
 
 impl Spelling {
     pub fn is_absolute(&self) -> bool {
-        matches!(self, Spelling::Absolute | Spelling::AbsoluteSlash | Spelling::AbsoluteSlashDot | Spelling::Odd { absolute: true, .. })
+        matches!(self, Spelling::Absolute | Spelling::AbsoluteSlash | Spelling::AbsoluteSlashDot | Spelling::Odd { absolute: true, .. } | Spelling::Above { .. })
     }
 }
 
@@ -393,4 +399,26 @@ pub fn rel_to<'a>(p: &'a str, q: &str) -> &'a str {
     else {
         &p[q.len() + 1..]
     }
+}
+
+/// `$UP<k>` or `$UP<k>/rest` at the start of a glob expression: (k, rest without the separator).
+pub fn up_prefix(expr: &str) -> Option<(usize, &str)> {
+    let t = expr.strip_prefix("$UP")?;
+    let digits = t.chars().take_while(|c| c.is_ascii_digit()).count();
+    if digits == 0 {
+        return None;
+    }
+    let k: usize = t[..digits].parse().ok()?;
+    match &t[digits..] {
+        "" => Some((k, "")),
+        r if r.starts_with('/') => Some((k, &r[1..])),
+        _ => None,
+    }
+}
+
+/// The last `k` components of an absolute path text (all of them if it has fewer).
+pub fn last_components(root_text: &str, k: usize) -> Vec<&str> {
+    let comps: Vec<&str> = root_text.split('/').filter(|c| !c.is_empty()).collect();
+    let k = k.min(comps.len());
+    comps[comps.len() - k..].to_vec()
 }
